@@ -264,8 +264,12 @@ add(Row(
     'ZXZXZDecomposition', 'exact', domain=dom_1q,
     options=lambda tier, seed: [
         {}, {'rx': True}, {'u1': True}, {'rx': True, 'u1': True},
-        {'model': {'gates': ['RX', 'U1', 'CNOT']}},
-        {'model': {'gates': ['RX', 'SX', 'RZ', 'U1', 'CNOT']}},
+    ] + [
+        # every combination of the X-type and Z-type gates a model can
+        # offer: the two choices (SX or RX, RZ or U1) are independent
+        {'model': {'gates': xs + zs + ['CNOT']}}
+        for xs in (['SX'], ['RX'], ['RX', 'SX'])
+        for zs in (['RZ'], ['U1'], ['RZ', 'U1'])
     ],
     make=lambda o, s, seed: (
         setup(o, s, seed)[0] + [P.ZXZXZDecomposition(
